@@ -10,6 +10,7 @@ CONSTANTS
   SWSets <- SW_b
   FixGC = TRUE
   FixSnapshot = TRUE
+  MaxStopFails = 1
   FixStopped = TRUE
 VIEW view
 ACTION_CONSTRAINT Emit
